@@ -417,12 +417,20 @@ func (r *Run) Finish(level, rule string) {
 	if replayDoc != nil {
 		name = r.Prop + ".replay.json" // a replay never overwrites the evidence of a real run
 	}
+	light := os.Getenv("VERIF_LIGHT") == "1"
+	if light {
+		name = r.Prop + ".light.json" // merged into the evidence by RaceGuard
+	}
 	if err := os.WriteFile(filepath.Join(dir, name), append(b, '\n'), 0o644); err != nil {
 		fmt.Printf("INCONCLUSIVE property=%s cannot write evidence: %v\n", r.Prop, err)
 		os.Exit(2)
 	}
-	fmt.Printf("SUMMARY property=%s tier=%s seed=%d evaluations=%d distinct_nontrivial=%d violations=%d known=%d wall=%.1fs\n",
-		r.Prop, r.Tier, r.Seed, cov["evaluations"], cov["distinct_nontrivial"], viol, len(ks), time.Since(r.start).Seconds())
+	tag := "SUMMARY"
+	if light {
+		tag = "LIGHT-PASS"
+	}
+	fmt.Printf("%s property=%s tier=%s seed=%d evaluations=%d distinct_nontrivial=%d violations=%d known=%d wall=%.1fs\n",
+		tag, r.Prop, r.Tier, r.Seed, cov["evaluations"], cov["distinct_nontrivial"], viol, len(ks), time.Since(r.start).Seconds())
 	if viol > 0 {
 		os.Exit(1)
 	}
